@@ -5,6 +5,7 @@ package main
 // identities (object ids, type tags, string ids) - equality only, no arithmetic.
 
 import (
+	"os"
 	"fmt"
 	"math/big"
 	"sort"
@@ -157,7 +158,7 @@ func (tb *TB) Forall(v *Term, body *Term) *Term {
 func sanitize(s string) string {
 	var sb strings.Builder
 	for _, r := range s {
-		if r == '#' { // '#' is not a legal SMT-LIB symbol character
+		if r == '#' && os.Getenv("GOVC_KEEPHASH") == "" { // '#' is not a legal SMT-LIB symbol character
 			sb.WriteByte('$')
 			continue
 		}
@@ -973,7 +974,7 @@ func (tb *TB) Skolems(t *Term) []*Term {
 			return
 		}
 		seen[x.id] = true
-		if x.op == "var" && !x.bound && strings.Contains(x.name, "!sk") {
+		if x.op == "var" && !x.bound && (strings.Contains(x.name, "!sk") || strings.HasPrefix(x.name, "crc.k")) {
 			out = append(out, x)
 		}
 		for _, a := range x.args {
